@@ -161,6 +161,11 @@ fn reference(ctx: &Context, t: &T, f: &mut Facts) -> Result<RV, Refusal> {
                     dims_unknown: false,
                 });
             }
+            // a composed prefix + unit string that is the exact name of a substance denotes the
+            // substance (`hg` is mercury, not a hectogram): not a unit leaf
+            if crate::props::c03::names_a_substance(ctx, unit) {
+                return Err(Refusal::UnknownLeaf(unit.clone()));
+            }
             match ctx.lookup(unit) {
                 Some(num) => {
                     let val = match rinkx::rational_of(&num.value) {
